@@ -29,6 +29,7 @@ func H_c02_sender_faults() {
 
 	s := newVSession(h, conn, true)
 	s.remoteSID = "B2FHM$"
+	s.remoteNoMsgs = symInt(0, 1) == 1 // the peer ended its previous turn with FF, or not
 	props := s.outbound()
 	var lines []string
 	total := 0
